@@ -147,7 +147,7 @@ func init() {
 		Jobs:        c06Jobs,
 		Budget: func(tier string) time.Duration {
 			if tier == "quick" {
-				return 60 * time.Second
+				return 120 * time.Second
 			}
 			return 10 * time.Minute
 		},
@@ -192,7 +192,7 @@ func init() {
 				}
 				for _, d := range Decorate(f.Merged, c.Q) {
 					k := d.Dec[:strings.Index(d.Dec, "@")]
-					if k == "argVar" || k == "argVarNamedId" || k == "argVarDefault" || k == "varTwice" {
+					if k == "argVar" || k == "argVarNamedId" || k == "argVarDefault" || k == "varTwice" || k == "rootTypename" || k == "rootTypenameAliased" {
 						withVars = append(withVars, d)
 					}
 				}
